@@ -29,10 +29,20 @@ theorem runItems_append (s : BState) (a b : List Item) :
     rw [ih]
     cases (stepItem s i).2 <;> simp
 
-/-- a refused transaction (ante handler) writes nothing -/
+/-- a refused transaction (ante handler returned an error) writes nothing -/
 theorem C20_rejected_is_noop (s : BState) (t : EthTx) (x : Exec) (code : String)
-    (h0 : blockExhausted s = false) (h1 : ¬ t.gasLimit < 20999) (hr : anteReject s t = some code) :
+    (h0 : blockExhausted s = false) (h1 : ¬ t.gasLimit < 20999) (hr : anteReject s t = some code)
+    (hc : code ≠ antePanicCode) :
     (stepEth s t x).1 = s := by
+  unfold stepEth
+  simp [h0, h1, hr, hc]
+
+/-- a transaction on which the ante handler panics (zero effective fee: the fee checker indexes an empty coin list; the
+panic is recovered by `runTx`) writes nothing but the block gas meter, which is charged the reading of the context's
+meter at the panic — as for every transaction that consumed gas, later transactions see that much less block gas -/
+theorem C20_ante_panic_charges_block_gas_only (s : BState) (t : EthTx) (x : Exec)
+    (h0 : blockExhausted s = false) (h1 : ¬ t.gasLimit < 20999) (hr : anteReject s t = some antePanicCode) :
+    (stepEth s t x).1 = { s with blockGas := s.blockGas + x.meterGas } := by
   unfold stepEth
   simp [h0, h1, hr]
 
